@@ -1009,6 +1009,8 @@ def np_record(engine, run, a, k):
 @external("numpy.asarray", "numpy.asanyarray", "numpy.array", "numpy.atleast_1d")
 def np_asarray(engine, run, a, k):
     v = a[0]
+    if isinstance(v, SStack):
+        return v
     if isinstance(v, (SArr, SCell, SSeq)):
         if isinstance(v, SArr) and v.ndim == 0:
             return SArr(v.elems, 1, v.kind)
@@ -1441,3 +1443,12 @@ def sp_dblquad(engine, run, a, k):
     val = engine.invoke(run, f, [y, x], {})
     s = _reduce(run, "dblquad", val, "dblquad", dict(outer=x, inner=y, outer_lo=lo, outer_hi=hi, inner_lo=glo, inner_hi=ghi))
     return (s, run.fresh_real("quad_err"))
+
+
+@external("numpy.arange")
+def np_arange(engine, run, a, k):
+    lo, hi = (0, a[0]) if len(a) == 1 else (a[0], a[1])
+    idx = run.fresh_int("ar_idx")
+    n = ops.binop(run, ast.Sub(), hi, lo)
+    run.assume(z3.And(idx >= 0, idx < to_z3(n)))
+    return SCell(to_z3(lo) + idx, f"arange!{next(run.counter)}", kind="int")
